@@ -409,6 +409,11 @@ def make(cfg):
                 if has_missing:
                     msg = 'at least one value is missing but there is no ignored-rows warning'
                     raise Violation('C17/missing-comment: ' + msg, detail('missing-comment', msg, a))
-        return {'nontrivial': True, 'tags': ['attrs=%d' % len(want_attrs)], 'sample': None}
+        tags = ['attrs=%d' % len(want_attrs)]
+        from . import tracecheck
+        if B <= 12 and tracecheck.maybe_validate(c, 'h_prof', detail('trace-validation', '-', want_attrs[0]),
+                                                 cfg.get('validate_every', 5), 'C17'):
+            tags.append('validated')
+        return {'nontrivial': True, 'tags': tags, 'sample': None}
 
     return h
